@@ -79,17 +79,17 @@ impl MemcacheBinaryCodec {
 
 //@fn protocol/binary_codec.rs | impl MemcacheBinaryCodec | write_msg | safety=C10,C11
     ensures
-        final(dst)@ =~= old(dst)@ + wire_bytes(*msg), // @ob C11 write_msg.wire_bytes
+        final(dst)@ =~= old(dst)@ + wire_bytes(*msg), // @ob C11,C01,C02 write_msg.wire_bytes
 //@endfn
 
 //@fn protocol/binary_codec.rs | impl MemcacheBinaryCodec | write_header | safety=C10,C11
     ensures
-        final(dst)@ =~= old(dst)@ + hdr_bytes(resp_header(*msg)), // @ob C11 write_header.hdr_bytes
+        final(dst)@ =~= old(dst)@ + hdr_bytes(resp_header(*msg)), // @ob C11,C01,C02 write_header.hdr_bytes
 //@endfn
 
 //@fn protocol/binary_codec.rs | impl MemcacheBinaryCodec | write_header_impl | safety=C10,C11
     ensures
-        final(dst)@ =~= old(dst)@ + hdr_bytes(*header), // @ob C11 write_header_impl.hdr_bytes
+        final(dst)@ =~= old(dst)@ + hdr_bytes(*header), // @ob C11,C01,C02 write_header_impl.hdr_bytes
 //@endfn
 
 //@fn protocol/binary_codec.rs | impl MemcacheBinaryCodec | write_data | safety=C10,C11
@@ -101,7 +101,7 @@ impl MemcacheBinaryCodec {
 //@fn protocol/binary_codec.rs | impl Encoder<BinaryResponse> for MemcacheBinaryCodec | encode | ret=r | safety=C10,C11 | sigsub=Self::Error=>io::Error
     ensures
         r is Ok, // @ob C11 encode.never_fails
-        final(dst)@ =~= old(dst)@ + wire_bytes(msg), // @ob C11 encode.wire_bytes
+        final(dst)@ =~= old(dst)@ + wire_bytes(msg), // @ob C11,C01,C02,C12 encode.wire_bytes
 //@endfn
 }
 
